@@ -57,6 +57,10 @@ def muldivFixed (v m d : Int) : Option Int :=
   if d = 0 then none
   else some (wrap64 (wrap64 (wrap64 (Int.tdiv v d) * m) + wrap64 (Int.tdiv (Int.tmod v d * m) d)))
 
+/-- The canonical body a copy must be equal to: repaired or not (flag emitted by the translator). -/
+def canon (fixed : Bool) (v m d : Int) : Option Int :=
+  if fixed then muldivFixed v m d else muldiv v m d
+
 /-- The mathematically exact product-then-quotient, truncated toward zero. -/
 def exact (v m d : Int) : Int := Int.tdiv (v * m) d
 
@@ -118,6 +122,7 @@ inductive Verdict | ok | fail (why : String) | known (why : String)
 def verdict (reachable : Bool) (v m d : Int) (impl : Option Int) : Verdict :=
   if d = 0 then
     (match impl with | none => .ok | some _ => .fail "zero divisor did not panic")
+  else if impl = none then .fail "panic with a non-zero divisor"
   else
     let e := exact v m d
     if ¬ InI64 e then .ok
